@@ -11,7 +11,7 @@
    des_hyps_nonvacuous, reject_nonvacuous (C12/Proofs_API.v) and the KAT files. *)
 From MV Require Import C12.Modes C12.Proofs_Modes C12.Proofs_DES C12.Proofs_AES C12.Proofs_AES_Key C12.Proofs_API.
 From MV Require Import C12.Proofs_SP80038A C12.KAT_AES C12.KAT_DES C12.KAT_Modes.
-From MV Require Import C12.Impl_DES C12.Impl_AES C12.Proofs_Impl_DES C12.Proofs_Impl_AES C12.Proofs_Impl_AES2 C12.Proofs_Impl_AES3.
+From MV Require Import C12.Impl_DES C12.Impl_AES C12.Proofs_Impl_DES C12.Proofs_Impl_AES C12.Proofs_Impl_AES2 C12.Proofs_Impl_AES3 C12.Proofs_Keys C12.Impl_Ctx.
 Local Open Scope N_scope.
 
 (* ===== 1. the mode loops, generic over ANY block primitive E with inverse D on bs-byte blocks ===== *)
@@ -431,3 +431,50 @@ Print Assumptions aes_add_round_key_impl_equals_spec.
 Theorem aes_xtime_impl_equals_spec : forall w, word4 w -> impl_xtime_u32 (of_le w) = of_le (map xtime w).
 Proof. exact xtime_u32_spec. Qed.
 Print Assumptions aes_xtime_impl_equals_spec.
+
+(* ---------- key handling: parity bits, independent Triple-DES schedules ---------- *)
+(* the DES key schedule ignores the least significant (parity) bit of every key byte ... *)
+Theorem des_key_schedule_ignores_parity : forall key key', wfb 8 key -> wfb 8 key' ->
+  map (fun b => N.land b 254) key = map (fun b => N.land b 254) key' -> des_subkeys key = des_subkeys key'.
+Proof. exact des_subkeys_ignore_parity. Qed.
+Print Assumptions des_key_schedule_ignores_parity.
+
+(* ... and exactly those: on the 64 key bits, positions 7, 15, .., 63 are ignored, every other position is used *)
+Theorem des_key_schedule_ignores_exactly_parity : forall kb kb', length kb = 64%nat -> length kb' = 64%nat ->
+  ((forall p, (p < 64)%nat -> parity_pos p = false -> nth p kb false = nth p kb' false) ->
+   des_subkeys_bits kb = des_subkeys_bits kb') /\
+  (forall p, (p < 64)%nat -> parity_pos p = false -> nth p kb false <> nth p kb' false ->
+   des_subkeys_bits kb <> des_subkeys_bits kb').
+Proof. exact (fun kb kb' H H' => conj (subkeys_ignore_parity_bits kb kb' H H') (fun p => subkeys_use_every_other_bit kb kb' p H H')). Qed.
+Print Assumptions des_key_schedule_ignores_exactly_parity.
+
+Theorem des_key_schedule_impl_ignores_parity : forall key key', wfb 8 key -> wfb 8 key' ->
+  map (fun b => N.land b 254) key = map (fun b => N.land b 254) key' -> impl_set_key key = impl_set_key key'.
+Proof. exact impl_key_schedule_ignores_parity. Qed.
+Print Assumptions des_key_schedule_impl_ignores_parity.
+
+(* for every key triple, ctx1, ctx2, ctx3 of a Triple-DES context are the DES key schedules of one key each
+   (tdes_slots: which key and direction), so ctx_i does not change when the other two keys change *)
+Theorem tdes_key_schedules_independent : forall o m k1 k2 k3 c,
+  tdes_set_key true true true true o m k1 k2 k3 = (OK, Some c) ->
+  [t_ks1 c; t_ks2 c; t_ks3 c] = map (fun s => des_gen_subkeys (fst s) (snd s)) (tdes_slots o m k1 k2 k3) /\
+  forall k1' k2' k3' c', tdes_set_key true true true true o m k1' k2' k3' = (OK, Some c') ->
+    (k2 = k2' -> t_ks2 c = t_ks2 c') /\
+    (block_mode m && negb (is_enc o) = false -> (k1 = k1' -> t_ks1 c = t_ks1 c') /\ (k3 = k3' -> t_ks3 c = t_ks3 c')) /\
+    (block_mode m && negb (is_enc o) = true -> (k3 = k3' -> t_ks1 c = t_ks1 c') /\ (k1 = k1' -> t_ks3 c = t_ks3 c')).
+Proof. exact (fun o m k1 k2 k3 c H => conj (tdes_slots_schedules o m k1 k2 k3 c H)
+  (fun k1' k2' k3' c' H' => tdes_schedule_depends_on_one_key o m k1 k2 k3 k1' k2' k3' c c' H H')). Qed.
+Print Assumptions tdes_key_schedules_independent.
+
+(* the same for the bytes the translated openssl_des.c leaves in the three contexts *)
+Theorem tdes_key_schedules_impl_independent : forall o m k1 k2 k3, op_valid o = true -> wfb 8 k1 -> wfb 8 k2 -> wfb 8 k3 ->
+  impl_tdes_ctx_bytes o m k1 k2 k3 =
+  flat_map (fun s => ks_bytes (map kwpair (des_gen_subkeys (fst s) (snd s)))) (tdes_slots o m k1 k2 k3).
+Proof. exact tdes_ctx_impl_schedules. Qed.
+Print Assumptions tdes_key_schedules_impl_independent.
+
+(* the text of muggle_tdes_set_key (source scan on every run): only argument checks and the key-schedule calls
+   on ctx1, ctx2, ctx3; a shortcut that copies or compares schedules / keys breaks this obligation *)
+Theorem tdes_set_key_text_is_three_schedule_calls : tdes_set_key_foreign = [] /\ tdes_set_key_targets = [1; 2; 3]%nat.
+Proof. exact tdes_set_key_text_ok. Qed.
+Print Assumptions tdes_set_key_text_is_three_schedule_calls.
